@@ -12,6 +12,7 @@ package c02
 //	  v:<b>:<sighex>       tbls.Verify(pub, buf b, sig)
 //	  bv:<b>:<sighex>      bls.Verify(group key, buf b, sig)
 //	  r:<b>:<entries>      tbls.Recover(pub, buf b, entries, t, n)
+//	  rr:<b>:<entries>     tbls.Recover twice on the SAME [][]byte (the first call compacts it in place)
 
 import (
 	"bytes"
@@ -149,6 +150,29 @@ func execHist(w []string) (res h.Result) {
 			// hand Verdict a private copy of the message
 			if v, _, _ := Verdict(o, coeffs, hs[b], append([]byte{}, bufs[b]...), pub, es, t, n); v != "" {
 				fail(k, v)
+			}
+		case "rr":
+			es := Entries(f[2])
+			cp := make([][]byte, len(es))
+			for i, e := range es {
+				cp[i] = append([]byte{}, e...)
+			}
+			call := func() string {
+				return catch(func() string {
+					sig, err := tbls.Recover(Suite(), pub, bufs[b], cp, t, n) // same slice object both times
+					if err != nil {
+						return "err " + ErrKind(err)
+					}
+					return "ok " + h.Hex(sig)
+				})
+			}
+			o1 := call()
+			o2 := call()
+			outs = append(outs, o1+"+"+o2)
+			for _, o := range []string{o1, o2} {
+				if v, _, _ := Verdict(o, coeffs, hs[b], append([]byte{}, bufs[b]...), pub, es, t, n); v != "" {
+					fail(k, v)
+				}
 			}
 		default:
 			panic("bad case line")
@@ -368,7 +392,9 @@ func RecoverHistory(rng *h.Rng, k int) string {
 		st = []string{w(0, h1, m1), w(1, h2, m2), "r:0:" + set(h1, b), "r:1:" + set(h2, a), "r:0:" + set(h1, a), "r:1:" + set(h2, b)}
 	case 2:
 		ext := append(append([]int{}, b...), rng.Perm(n)[:2]...)
-		st = []string{w(0, h1, m1), "r:0:" + set(h1, a), "r:0:" + set(h1, a), "r:0:" + set(h1, b), "r:0:" + set(h1, ext), "r:0:" + set(h1, b[:t-1])}
+		dup := append(append(append([]int{}, a[:1]...), a...), a[0]) // exact duplicates: compacted in place by the first call
+		st = []string{w(0, h1, m1), "r:0:" + set(h1, a), "r:0:" + set(h1, a), "r:0:" + set(h1, b), "r:0:" + set(h1, ext), "r:0:" + set(h1, b[:t-1]),
+			"rr:0:" + set(h1, dup), "rr:0:" + set(h1, append(append([]int{}, b[:t-1]...), b[:t-1]...))}
 	case 3:
 		st = []string{w(0, h1, m1), "r:0:" + set(h1, a)}
 		for j := 3 + rng.Intn(4); j > 0; j-- {
